@@ -12,6 +12,7 @@ fn main() {
         ("c14", "replay") => yv::c14::replay(&args),
         ("c15", "record") => yv::c15::record(&args),
         ("c13", "record") => yv::c13::record(&args),
+        ("c12", "record") => yv::c12::record(&args),
         _ => { eprintln!("unknown command {:?}", &a[..2]); std::process::exit(2); }
     }
 }
